@@ -282,10 +282,11 @@ func parseCase(f []string) (*kase, bool) {
 	}
 	seen := map[string]bool{}
 	for _, n := range c.names {
-		if len(n.mw) != len(c.names) || len(n.hm) != len(c.names) || seen[n.s] {
+		// names are pairwise distinct ignoring (ASCII) case
+		if len(n.mw) != len(c.names) || len(n.hm) != len(c.names) || seen[strings.ToLower(n.s)] {
 			return nil, false
 		}
-		seen[n.s] = true
+		seen[strings.ToLower(n.s)] = true
 	}
 	if f[5] != "-" {
 		for _, ss := range strings.Split(f[5], ";") {
@@ -703,7 +704,17 @@ func observe(ctx caddy.Context, c *kase, cfg *caddy.Config, phase2 bool) *obs {
 			s.tls = 2
 		}
 		for _, r := range srv.Routes {
-			s.routes = append(s.routes, observeRoute(r))
+			or := observeRoute(r)
+			// the redirect matcher is provisioned: in a large list the exact names are lower-cased.
+			// The names of a case are pairwise distinct ignoring case, so spell them as the table does
+			for i, h := range or.hosts {
+				for _, n := range c.names {
+					if h != n.s && strings.EqualFold(h, n.s) {
+						or.hosts[i] = n.s
+					}
+				}
+			}
+			s.routes = append(s.routes, or)
 		}
 		for _, a := range s.listen {
 			if a.coversPort(c.httpPort()) {
